@@ -250,12 +250,15 @@ Definition st_initial : pstate :=
   [("base_model", ["UNSET"; "UnsetType"]); ("base_model", ["Upload"]); ("async_base_client", ["AsyncBaseClient"])].
 
 (* ------------------------------------------------------------------ isort's section placement *)
-(* isort.code(code) puts every `from m import ...` into a section: __future__, standard library, third party,
-   first party, local (relative).  isort.place: relative -> local; known lists (stdlib ...) next; THEN the
-   FILESYSTEM: a module/package named like the root of m below <cwd> or <cwd>/src makes it first party;
-   otherwise the default section, third party.  The decision is cached per module for the whole process.
-   [ienv] is that filesystem oracle: is module m found below cwd at the moment isort FIRST places it?
-   [fs_free] = isort.code(code, config=Config(src_paths=())) : no source path is searched (proposed fix). *)
+(* isort puts every `from m import ...` into a section: __future__, standard library, third party, first party,
+   local (relative).  isort.place: relative -> local; known lists (stdlib ...) next; then, for every configured
+   SOURCE PATH, the filesystem: a module/package named like the root of m there makes it first party; otherwise
+   the default section, third party.  Since f6e5e03 the generator calls isort.code(code, config=ISORT_CONFIG)
+   with ISORT_CONFIG = isort.Config(src_paths=()): no source path, the filesystem is never consulted.
+   [ienv] is the filesystem oracle (is module m found below cwd when isort first places it?); it is still an
+   argument of [place]: the environment exists, the code no longer looks at it.
+   [place_default] = isort.code(code) with the default configuration (source paths <cwd>/src, <cwd>), what the
+   code did before f6e5e03: kept ONLY for the regression Examples. *)
 Inductive isection := SecFuture | SecStdlib | SecThirdParty | SecFirstParty | SecLocal.
 Definition isection_eqb (a b : isection) : bool :=
   match a, b with
@@ -271,22 +274,29 @@ Fixpoint root_chars (l : chars) : chars :=
   end.
 Definition root_of (m : string) : string := l2s (root_chars (s2l m)).
 (* an import = (level, module): level 0 is absolute *)
-Definition place (fs_free : bool) (stdlib : list string) (env : ienv) (imp : nat * string) : isection :=
-  if Nat.ltb 0 (fst imp) then SecLocal
+Definition place_known (stdlib : list string) (imp : nat * string) : option isection :=
+  if Nat.ltb 0 (fst imp) then Some SecLocal
   else let r := root_of (snd imp) in
-       if String.eqb r "__future__" then SecFuture
-       else if mem_s r stdlib then SecStdlib
-       else if fs_free then SecThirdParty
-       else if env (snd imp) then SecFirstParty else SecThirdParty.
+       if String.eqb r "__future__" then Some SecFuture
+       else if mem_s r stdlib then Some SecStdlib else None.
+Definition place (stdlib : list string) (env : ienv) (imp : nat * string) : isection :=
+  match place_known stdlib imp with Some sec => sec | None => SecThirdParty end.
+Definition place_default (stdlib : list string) (env : ienv) (imp : nat * string) : isection :=
+  match place_known stdlib imp with
+  | Some sec => sec
+  | None => if env (snd imp) then SecFirstParty else SecThirdParty
+  end.
 (* the blocks of absolute imports, in section order; inside a block by lower-cased module name; empty blocks
    do not appear (each block is followed by a blank line in the file) *)
-Definition block (fs_free : bool) (stdlib : list string) (env : ienv) (imps : list (nat * string)) (sec : isection)
-  : list string :=
-  ksort str_leb lower_s (dedupe_first [] (map snd (filter (fun i => isection_eqb (place fs_free stdlib env i) sec) imps))).
-Definition layout (fs_free : bool) (stdlib : list string) (env : ienv) (imps : list (nat * string))
-  : list (list string) :=
+Definition block (pl : nat * string -> isection) (imps : list (nat * string)) (sec : isection) : list string :=
+  ksort str_leb lower_s (dedupe_first [] (map snd (filter (fun i => isection_eqb (pl i) sec) imps))).
+Definition layout_with (pl : nat * string -> isection) (imps : list (nat * string)) : list (list string) :=
   filter (fun b => match b with [] => false | _ => true end)
-         (map (block fs_free stdlib env imps) [SecFuture; SecStdlib; SecThirdParty; SecFirstParty]).
+         (map (block pl imps) [SecFuture; SecStdlib; SecThirdParty; SecFirstParty]).
+Definition layout (stdlib : list string) (env : ienv) (imps : list (nat * string)) : list (list string) :=
+  layout_with (place stdlib env) imps.
+Definition layout_default (stdlib : list string) (env : ienv) (imps : list (nat * string)) : list (list string) :=
+  layout_with (place_default stdlib env) imps.
 (* what isort sees while a package is generated with cwd = the project directory: the entries of cwd; and the
    target package itself — always when a previous generation left it there; on a fresh run the directory is
    created empty just before the first file (input_types.py) is formatted: an empty directory is a namespace
@@ -296,12 +306,6 @@ Definition layout (fs_free : bool) (stdlib : list string) (env : ienv) (imps : l
 Definition gen_env (cwd : list string) (target : string) (regenerate : bool) (early : list string) : ienv :=
   fun m => let r := root_of m in
            mem_s r cwd || (String.eqb r target && (regenerate || negb (mem_s m early))).
-(* the defect class: some absolute import of a generated module has the target package (or another name that
-   appears in cwd between two runs) as its root *)
-Definition g_c10_isort (changing : list string) (stdlib : list string) (imps : list (nat * string)) : bool :=
-  forallb (fun i => Nat.ltb 0 (fst i) || mem_s (root_of (snd i)) stdlib
-                    || negb (mem_s (root_of (snd i)) changing)) imps.
-
 (* ------------------------------------------------------------------ the site table *)
 Inductive sink :=
 | SkNone        (* construction / pure set algebra: no order observed here *)
@@ -312,7 +316,8 @@ Inductive sink :=
 | SkErrorText   (* reaches only the text of an exception / warning, no generated file *)
 | SkInput       (* ambient input that the property holds fixed (cwd) or excludes (timestamp comment) *)
 | SkPureText    (* a formatter that is a function of its text argument alone (black, autoflake; isort without source paths) *)
-| SkFsSections  (* isort with the default configuration: section placement consults the filesystem below cwd *).
+| SkFsSections  (* isort with source paths (the default configuration): section placement consults the filesystem
+                   below cwd.  No row may have it. *).
 
 Record site := {
   s_file : string; s_fn : string; s_ctx : string; s_expr : string; s_sink : sink; s_note : string
@@ -349,8 +354,8 @@ Definition order_sensitive (k : sink) : bool :=
 Definition env_sensitive (k : sink) : bool := match k with SkFsSections => true | _ => false end.
 Definition observe_env (k : sink) (stdlib : list string) (env : ienv) (imps : list (nat * string)) : list (list string) :=
   match k with
-  | SkFsSections => layout false stdlib env imps
-  | SkPureText => layout true stdlib env imps
+  | SkFsSections => layout_default stdlib env imps
+  | SkPureText => layout stdlib env imps
   | _ => []
   end.
 
@@ -471,18 +476,11 @@ Definition site_table : list site := [
     "the only caller sorts the paths (load_dir)";
   St "settings.py" "ClientSettings" "ambient" "Path.cwd()" SkInput "default target_package_path";
   St "utils.py" "ast_to_str" "formatter" "fix_code(code, remove_all_unused_imports=True)" SkPureText "autoflake";
-  St "utils.py" "ast_to_str" "formatter" "isort.code(code)" SkFsSections
-    "default configuration: first-party detection looks below cwd (layout false)";
   St "utils.py" "ast_to_str" "formatter" "isort.code(code, config=ISORT_CONFIG)" SkPureText
-    "the proposed fix: Config(src_paths=()) (layout true)";
-  St "utils.py" "ast_to_str" "formatter" "format_str(isort.code(code), mode=Mode())" SkPureText "black";
+    "since f6e5e03: Config(src_paths=()) (layout)";
   St "utils.py" "ast_to_str" "formatter" "format_str(isort.code(code, config=ISORT_CONFIG), mode=Mode())" SkPureText "black";
   St "contrib/extract_operations.py" "ExtractOperationsPlugin._module_to_str" "formatter"
-    "isort.code(code_with_formatted_strings)" SkFsSections "as utils.ast_to_str";
-  St "contrib/extract_operations.py" "ExtractOperationsPlugin._module_to_str" "formatter"
-    "isort.code(code_with_formatted_strings, config=ISORT_CONFIG)" SkPureText "the proposed fix";
-  St "contrib/extract_operations.py" "ExtractOperationsPlugin._module_to_str" "formatter"
-    "format_str(isort.code(code_with_formatted_strings), mode=Mode())" SkPureText "black";
+    "isort.code(code_with_formatted_strings, config=ISORT_CONFIG)" SkPureText "since f6e5e03";
   St "contrib/extract_operations.py" "ExtractOperationsPlugin._module_to_str" "formatter"
     "format_str(isort.code(code_with_formatted_strings, config=ISORT_CONFIG), mode=Mode())" SkPureText "black";
   St "utils.py" "process_name" "construct" "set(name)" SkNone "";
@@ -551,10 +549,10 @@ Definition run_nondet (e : sexp) : sexp :=
   | L [A "sites"] =>
       L (map (fun s => L [A (s_file s); A (s_fn s); A (s_ctx s); A (s_expr s); A (sink_name (s_sink s));
                           sB (order_sensitive (s_sink s) || env_sensitive (s_sink s)); A (s_note s)]) site_table)
-  | L [A "layout"; b; sl; cwd; A target; rg; early; imps] =>
-      match dB b, dStrs sl, dStrs cwd, dB rg, dStrs early, dList (dPair dNat dStr) imps with
-      | Some fsfree, Some stdlib, Some c, Some regen, Some ea, Some is =>
-          L (map sStrs (layout fsfree stdlib (gen_env c target regen ea) is))
-      | _, _, _, _, _, _ => sErr "layout" end
+  | L [A "layout"; sl; cwd; A target; rg; early; imps] =>
+      match dStrs sl, dStrs cwd, dB rg, dStrs early, dList (dPair dNat dStr) imps with
+      | Some stdlib, Some c, Some regen, Some ea, Some is =>
+          L (map sStrs (layout stdlib (gen_env c target regen ea) is))
+      | _, _, _, _, _ => sErr "layout" end
   | _ => sErr "nondet: bad command"
   end.
